@@ -857,6 +857,41 @@ impl Mon {
                 self.r.violate("C08", &format!("C08/{}/accepted-without-{}-signature", info.kind.name(), role), format!("signers {:?}", info.signers));
             }
         }
+        // ... and the converse, by effect: the settings of a bank change only through the
+        // administrative instructions (whose signer was just judged). An instruction that names no
+        // role - user instructions, permissionless cranks - leaves every setting as it was, apart
+        // from the consequences the program documents (a wipe-out shuts the bank, the staked-bank
+        // settings are propagated from the group's settings account, a legacy curve is migrated,
+        // the last repayment of a bank being wound down marks the wind-down complete).
+        if role_of(info.kind).is_none() && !matches!(info.kind, Kind::AddBankPermissionless | Kind::CloneBank) {
+            const SETTINGS: &[&str] = &["mint", "mint_decimals", "group", "liquidity_vault", "insurance_vault", "fee_vault", "flags", "emissions_rate", "emissions_mint", "emode", "fees_destination_account", "integration_accounts", "config.deposit_limit", "config.borrow_limit", "config.asset_tag", "config.config_flags"];
+            for (bk, pre, post) in &info.banks {
+                let (pre, post) = match (pre, post) {
+                    (Some(a), Some(b)) => (a, b),
+                    _ => continue,
+                };
+                let diff = bank_diff(pre, post);
+                if diff.is_empty() {
+                    continue;
+                }
+                self.r.count("C08.bank_writes_by_instructions_without_a_role");
+                for f in &diff {
+                    if !(SETTINGS.contains(f) || FROZEN_PROTECTED.contains(f)) {
+                        continue;
+                    }
+                    let sanctioned = match info.kind {
+                        Kind::HandleBankruptcy => *f == "config.operational_state" && post.config.operational_state == BankOperationalState::KilledByBankruptcy,
+                        Kind::PropagateStakedSettings => matches!(*f, "config.asset_weight_init" | "config.asset_weight_maint" | "config.deposit_limit" | "config.total_asset_value_init_limit" | "config.oracle_keys" | "config.oracle_max_age" | "config.risk_tier"),
+                        Kind::MigrateCurve => *f == "config.interest_rate_config",
+                        Kind::Repay => *f == "flags" && (pre.flags ^ post.flags) == 1 << 6 && pre.flags & (1 << 5) != 0,
+                        _ => false,
+                    };
+                    if !sanctioned {
+                        self.r.violate("C08", &format!("C08/{}/bank-setting-changed-by-an-instruction-without-a-role/{}", info.kind.name(), f), format!("bank {}: {} changed; signers {:?}", bk, f, info.signers));
+                    }
+                }
+            }
+        }
         // balances / funds of an account change only with an entitled signature
         for (i, (ak, ap, aq)) in info.accts.iter().enumerate() {
             let (p, q) = match (ap, aq) {
